@@ -126,19 +126,23 @@ def logging_db(base, hooks, **kw):
 
 # ------------------------------------------------------------------ (A)/(B) engine correspondence on table universes
 def table_worker(args):
-    seed, count = args
+    seed, count = args[:2]
+    rich = len(args) > 2  # the richer universes (utable.enrich), classes stored as bytes
     rnd = random.Random(seed)
     specrun.quiet()
     res = []
+    TC.COMPRESS = rich
     for _ in range(count):
         n = rnd.randint(2, 9)
         TC.U = utable.gen_universe(rnd, n)
+        if rich:
+            utable.enrich(TC.U, random.Random(seed * 31 + len(res)))
         iterative = rnd.random() < 0.4
         pack = utable.gen_pack(rnd, iterative=iterative)
         ev = rnd.random() < 0.3
         flavour = rnd.choice(["default", "default", "forget", "forest"])
         lines = utable.universe_lines(n, pack, ev)
-        o = {"flavour": flavour, "n": n, "problems": [], "seed": seed, "iterative": iterative}
+        o = {"flavour": flavour, "n": n, "problems": [], "seed": seed, "iterative": iterative, "rich": rich}
         log, raw = [], []
         try:
             if flavour == "forest":
@@ -341,7 +345,8 @@ def run(tier, seed, factor=1):
                 "from the pack; non-trivial = a run with >=3 recorded rules; distinct by seed / config")
     nt = common.scale(tier, 96, 800) * factor
     per = common.scale(tier, 20, 40)
-    touts = [o for part in specrun.pool_map(table_worker, [(seed * 7907 + i, per) for i in range(nt)]) for o in part]
+    touts = [o for part in specrun.pool_map(table_worker, [(seed * 7907 + i, per) for i in range(nt)] +
+                                            [(seed * 7907 + 500000 + i, per, "rich") for i in range(max(4, nt // 3))]) for o in part]
     specrun.quiet()
     for drv in ("EngineDefault", "EngineForest"):
         batch = [o for o in touts if o.get("driver") == drv and "lines" in o and "expect" in o]
